@@ -429,6 +429,9 @@ def checkCase (lines : Array String) : Array String := Id.run do
           a := a.cmp id "G-info" "yaml_nodes" (natsText s.1) (natsText (kvCsv rest "yaml_nodes"))
           a := a.cmp id "G-info" "yaml_edges" (edgesText (GraphInfo.deser s).edges) ((kv rest "yaml_edges").getD "")
           a := a.cmp id "G-info" "roundtrip" (toString (GraphInfo.deser s == gi)) ((kv rest "roundtrip_eq").getD "")
+          -- the value read back iterates like the original
+          a := a.cmp id "G-info" "back_iter" (natsText ((GraphInfo.deser s).iter.map (fun i => i * 7 + 3))) (natsText (kvCsv rest "back_iter"))
+          a := a.cmp id "G-info" "back_iter_rev" (natsText ((GraphInfo.deser s).iterRev.map (fun i => i * 7 + 3))) (natsText (kvCsv rest "back_iter_rev"))
         | none => if !lightCase then a := a.cmp id "G-info" "from_graph" "panic" "ok"
         let nodes := kvCsv rest "nodes"
         let unmap := fun (l : List Nat) => l.map (fun x => (x - 3) / 7)
@@ -438,6 +441,8 @@ def checkCase (lines : Array String) : Array String := Id.run do
               && parseEdges ((kv rest "back_edges").getD "") == bo.edges)
         a := a.prop id "C17" "iter topological" (topoOrderB realG (unmap (kvCsv rest "iter")))
         a := a.prop id "C17" "iter_rev reverse topological" (topoOrderB realG.flip (unmap (kvCsv rest "iter_rev")))
+        a := a.prop id "C17" "deserialised value: iter topological, iter_rev reverse topological"
+          (topoOrderB realG (unmap (kvCsv rest "back_iter")) && topoOrderB realG.flip (unmap (kvCsv rest "back_iter_rev")))
     | "session" :: rest =>
       inSession := true; started := false; mons := #[]; runCfgs := #[]; nSessions := nSessions + 1
       sessCoop := (kv rest "coop") == some "1"
